@@ -435,3 +435,24 @@ class AnyChipset(object):
                 raise IOError(errno.EIO, "input/output error")
             return None
         return call
+
+
+class RegChipset(object):
+    """a PN53x chipset as far as register programming goes (C19): reads return any octet, writes are recorded"""
+    def __init__(self):
+        self.regs = {}
+        self.sent = []
+
+    def read_register(self, *names):
+        if len(names) == 1:
+            return nondet_int(0, 255)
+        return [nondet_int(0, 255) for _ in names]
+
+    def write_register(self, *args):
+        if len(args) == 2 and isinstance(args[1], int):
+            args = [args]
+        for name, value in args:
+            self.regs[name] = value
+
+    def tg_response_to_initiator(self, data):
+        self.sent.append(bytes(data))
